@@ -349,7 +349,7 @@ func (d *FieldDom) Call(in *Interp, site ssa.Instruction, fn *ssa.Function, args
 	if fn.Pkg == in.P.Field && fn.Synthetic != "" && fn.Name() == "init" {
 		return nil, true
 	}
-	if fn.Pkg == in.P.Root && fn.Name() == "checkInitialized" && fn.Signature.Recv() == nil {
+	if fn.Pkg == in.P.Root && load.ShortName(fn) == "checkInitialized" {
 		// the guard inspects the limb representation; symbolic inputs stand for
 		// initialised points (that uninitialised ones panic is C15's rule)
 		return nil, true
